@@ -953,9 +953,8 @@ def unbatch_product(ctx, gens):
     sources = []
     g = gens.get("batch")
     if g:
-        keep = max(1, min(1000, int(1000 * (2000 if quick else 40000) / max(1, g["nseq"]))))
         for cell in ["typed1", "exch8"]:
-            sources.append(("seq", g["seqs"], keep, dict(CELLS[cell], comps=FAMILIES["batch"]["exec"]["comps"], probes=2, seed=ctx.seed)))
+            sources += bfs_sources(g, 2000 if quick else 30000, dict(CELLS[cell], comps=FAMILIES["batch"]["exec"]["comps"], probes=2, seed=ctx.seed))
     counts = dict(wide=40, rel2=40, rich=40) if quick else dict(wide=300, rel2=300, rich=300)
     sources += driven_sources(ctx, ctx.binpath, ["wide", "rel2", "rich"], counts, "typed1", {})
     sources += driven_sources(ctx, ctx.binpath, ["wide", "rich"], counts, "exch8", {})
@@ -1410,6 +1409,16 @@ def product_check(ctx, mode, variants, sources, label, validate_each=True, cover
             ctx.stats["samples"].append(dict(family=label, product_head=[json.loads(next(f)) for _ in range(2)]))
 
 
+def bfs_sources(g, want, cfg):
+    """Sources of a product drawn from the transitions of a BFS family: about `want` sequences in all, in seed-distinct
+    samples of at most ~5000 sequences each (small logs, monitors in parallel)."""
+    n = max(1, g["nseq"])
+    want = min(want, n)
+    k = max(1, -(-want // 5000))
+    per = max(1, min(1000, int(1000 * want / n / k)))
+    return [("seq", g["seqs"], per, dict(cfg, seed=cfg.get("seed", 1) + 7919 * i)) for i in range(k)]
+
+
 def driven_sources(ctx, binp, names, count, cell, extra):
     """Histories drawn by the seeded driver on the real world (once), to be replayed by every variant of a product.
     Sources hold at most ~60 histories each, so that the logs of a product stay small and the monitors run in parallel."""
@@ -1455,9 +1464,8 @@ def check_c12(ctx):
     variants = variants_for(ctx, "C12")
     sources = []
     for fam, g in gens:
-        keep = max(1, min(1000, int(1000 * (6000 if quick else 60000) / max(1, g["nseq"]))))
-        sources.append(("seq", g["seqs"], keep, dict(CELLS["typed1"], comps=FAMILIES[fam]["exec"]["comps"], probes=4, seed=ctx.seed, stats=True)))
-        sources.append(("seq", g["seqs"], keep, dict(CELLS["unsafe2"], comps=FAMILIES[fam]["exec"]["comps"], probes=4, seed=ctx.seed + 1, stats=True)))
+        sources += bfs_sources(g, 6000 if quick else 40000, dict(CELLS["typed1"], comps=FAMILIES[fam]["exec"]["comps"], probes=4, seed=ctx.seed, stats=True))
+        sources += bfs_sources(g, 6000 if quick else 40000, dict(CELLS["unsafe2"], comps=FAMILIES[fam]["exec"]["comps"], probes=4, seed=ctx.seed + 1, stats=True))
     sources += driven_sources(ctx, b, ["wide", "rel2", "obs", "lock", "reset"], 20 if quick else 300, "typed11", dict(stats=True))
     product_check(ctx, "C12", variants, sources, "c12")
     return finish(ctx, "product traces of 3 processes")
@@ -1476,10 +1484,9 @@ def check_c20(ctx):
         g = run_generator(ctx, fam, 600)
         if g["design_violation"]:
             raise Inconclusive("design check of %s fails (%s); run the property's own check" % (fam, g["design_violation"]))
-        keep = max(1, min(1000, int(1000 * (1500 if quick else 40000) / max(1, g["nseq"]))))
         for cell in ["typed1", "unsafe2"]:
-            sources.append(("seq", g["seqs"], keep, dict(CELLS[cell], comps=FAMILIES[fam]["exec"]["comps"], probes=3, misuse=6, qmis=True,
-                                                          seed=ctx.seed, stats=True)))
+            sources += bfs_sources(g, 1500 if quick else 25000, dict(CELLS[cell], comps=FAMILIES[fam]["exec"]["comps"], probes=3, misuse=6, qmis=True,
+                                                                      seed=ctx.seed, stats=True))
     sources += driven_sources(ctx, bins[0][1], ["wide", "rel2", "obs", "lock", "reset", "arity"], 8 if quick else 200, "typed11",
                               dict(stats=True, misuse=8, qmis=True))
     sources += driven_sources(ctx, bins[0][1], ["wide", "lock"], 8 if quick else 200, "unsafe1", dict(misuse=8, qmis=True))
@@ -1537,8 +1544,7 @@ def check_c14(ctx):
         g = run_generator(ctx, fam, 600)
         if g["design_violation"]:
             raise Inconclusive("design check of %s fails (%s); run the property's own check" % (fam, g["design_violation"]))
-        keep = max(1, min(1000, int(1000 * (2500 if quick else 40000) / max(1, g["nseq"]))))
-        sources.append(("seq", g["seqs"], keep, dict(comps=FAMILIES[fam]["exec"]["comps"], probes=4, seed=ctx.seed, typedobs=True)))
+        sources += bfs_sources(g, 2500 if quick else 30000, dict(comps=FAMILIES[fam]["exec"]["comps"], probes=4, seed=ctx.seed, typedobs=True))
     counts = dict(arity=160, wide=20, rel2=20, obs=20) if quick else dict(arity=1200, wide=150, rel2=150, obs=150)
     sources += driven_sources(ctx, b, ["arity", "wide", "rel2", "obs"], counts, "typed11", dict(typedobs=True))
     for s_ in sources:
